@@ -216,6 +216,7 @@ func runC09(c *Ctx) {
 	sort.Strings(classes)
 	runCloseOnce(c, an)
 	runSendAfterClose(c, an)
+	runNilMapWrite(c)
 	for _, cl := range classes {
 		r.Add(core.Obligation{Rule: "lock-classes", Key: "lock-classes " + cl, Func: "-", Status: core.Proved, Basis: "lock class found"})
 	}
@@ -383,6 +384,91 @@ func runC09(c *Ctx) {
 		}
 	}
 
+	// renderers: FastLog / String methods are analysed with their caller's locks. A call that renders a shared object
+	// (line.Struct(host), host.String(), entry.FastLog(line)) reads every guarded field the renderer touches, so the
+	// call site must hold what those fields need.
+	r.Rule("render-sites", "objects with guarded fields are rendered (FastLog/String) under the locks those fields need", 20)
+	reads := map[string]map[string]bool{} // "pkg.Type" -> fields read by its renderers
+	for _, fn := range fns {
+		if !isDiagnostic(fn) || fn.Signature.Recv() == nil || len(fn.Params) == 0 || fn.Parent() != nil {
+			continue
+		}
+		tn := namedOf(fn.Signature.Recv().Type())
+		if tn == nil {
+			continue
+		}
+		k := pkgShort(tn.Obj().Pkg()) + "." + tn.Obj().Name()
+		if reads[k] == nil {
+			reads[k] = map[string]bool{}
+		}
+		st, _ := tn.Underlying().(*types.Struct)
+		core.EachInstr(fn, func(i ssa.Instruction) {
+			switch t := i.(type) {
+			case *ssa.FieldAddr:
+				x := t.X
+				if al, ok := x.(*ssa.Alloc); ok && al.Referrers() != nil {
+					// a value receiver spilled to a local because field addresses are taken
+					for _, rf := range *al.Referrers() {
+						if sto, ok := rf.(*ssa.Store); ok && sto.Addr == ssa.Value(al) && sto.Val == ssa.Value(fn.Params[0]) {
+							x = fn.Params[0]
+						}
+					}
+				}
+				if x == ssa.Value(fn.Params[0]) && st != nil && t.Field < st.NumFields() {
+					reads[k][st.Field(t.Field).Name()] = true
+				}
+			case *ssa.Field:
+				if t.X == ssa.Value(fn.Params[0]) && st != nil && t.Field < st.NumFields() {
+					reads[k][st.Field(t.Field).Name()] = true
+				}
+			}
+		})
+	}
+	for _, fn := range fns {
+		if isDiagnostic(fn) || isConstructor(fn) || isDead(c, fn) {
+			continue
+		}
+		kg := core.NewKeyGen()
+		core.EachInstr(fn, func(i ssa.Instruction) {
+			call, ok := i.(ssa.CallInstruction)
+			if !ok {
+				return
+			}
+			var objs []ssa.Value
+			if callee := call.Common().StaticCallee(); callee != nil {
+				switch {
+				case isDiagnostic(callee) && callee.Signature.Recv() != nil && len(call.Common().Args) > 0:
+					objs = append(objs, call.Common().Args[0])
+				case callee.Name() == "Struct" && callee.Pkg != nil && callee.Pkg.Pkg.Name() == "fastlog" && len(call.Common().Args) == 2:
+					if mi, ok := call.Common().Args[1].(*ssa.MakeInterface); ok {
+						objs = append(objs, mi.X)
+					}
+				case callee.Pkg != nil && callee.Pkg.Pkg.Path() == "fmt" && len(call.Common().Args) > 0:
+					// fmt renders its operands through String()/Error(): the values boxed into the variadic slice
+					if sl, ok := call.Common().Args[len(call.Common().Args)-1].(*ssa.Slice); ok {
+						if al, ok := sl.X.(*ssa.Alloc); ok && al.Referrers() != nil {
+							for _, rf := range *al.Referrers() {
+								ia, ok := rf.(*ssa.IndexAddr)
+								if !ok || ia.Referrers() == nil {
+									continue
+								}
+								for _, rr := range *ia.Referrers() {
+									if st, ok := rr.(*ssa.Store); ok {
+										if mi, ok := st.Val.(*ssa.MakeInterface); ok {
+											objs = append(objs, mi.X)
+										}
+									}
+								}
+							}
+						}
+					}
+				}
+			}
+			for _, obj := range objs {
+				renderSite(c, an, fn, i, obj, reads, kg)
+			}
+		})
+	}
 	// goroutine bodies
 	for _, fn := range fns {
 		core.EachInstr(fn, func(i ssa.Instruction) {
@@ -426,7 +512,7 @@ func isDiagnostic(fn *ssa.Function) bool {
 		n = fn.Parent().Name()
 	}
 	switch {
-	case n == "FastLog" || n == "String" || n == "Log" || strings.HasPrefix(n, "print"):
+	case n == "FastLog" || n == "String" || n == "Log":
 		// renderers called with the lock already held by their caller, and unexported print helpers;
 		// the exported PrintTable methods are API and are checked like any other reader
 		return true
@@ -576,4 +662,57 @@ func fromMapLookup(v ssa.Value, depth int) bool {
 		}
 	}
 	return false
+}
+
+// namedOf: the named struct type behind T or *T.
+func namedOf(t types.Type) *types.Named {
+	if pt, ok := t.Underlying().(*types.Pointer); ok {
+		t = pt.Elem()
+	}
+	nt, _ := t.(*types.Named)
+	return nt
+}
+
+// renderSite: obj is rendered (FastLog/String) at instruction i of fn.
+func renderSite(c *Ctx, an *locks.Analysis, fn *ssa.Function, i ssa.Instruction, obj ssa.Value, reads map[string]map[string]bool, kg *core.KeyGen) {
+	r := c.R
+	fi := an.Info[fn]
+	tn := namedOf(obj.Type())
+	if tn == nil {
+		return
+	}
+	// a value (not a pointer) was copied out earlier: the copy itself is the read, at the load
+	if _, isPtr := obj.Type().Underlying().(*types.Pointer); !isPtr {
+		if ld, isLoad := obj.(*ssa.UnOp); !isLoad || ld.Op != token.MUL {
+			return
+		}
+	}
+	k := pkgShort(tn.Obj().Pkg()) + "." + tn.Obj().Name()
+	for _, g := range guardTable {
+		if g.pkg+"."+g.typ != k || !reads[k][g.field] {
+			continue
+		}
+		must := fi.MustIn[i]
+		ok := false
+		for _, cl := range g.read {
+			if must[locks.Held{Class: cl, Mode: "W"}] || must[locks.Held{Class: cl, Mode: "R"}] {
+				ok = true
+			}
+		}
+		base := obj
+		if ld, isLoad := obj.(*ssa.UnOp); isLoad {
+			base = ld.X
+		}
+		if !ok && freshBase(base, 0) {
+			ok = true
+		}
+		st := core.Proved
+		if !ok {
+			st = core.Violated
+		}
+		key := strings.TrimSuffix(kg.Key(fmt.Sprintf("render-sites %s.%s read by its renderer in %s", k, g.field, core.FuncName(fn))), "#0")
+		r.Add(core.Obligation{Rule: "render-sites", Key: key, Func: core.FuncName(fn), Pos: c.P.Pos(core.PosOf(i)), Status: st,
+			Basis:  fmt.Sprintf("rendered under %s", must),
+			Detail: fmt.Sprintf("the renderer of %s reads %s, which needs one of %v; at this call the locks certainly held are %s (entry lockset %s)", k, g.field, g.read, must, an.Entry[fn])})
+	}
 }
